@@ -55,6 +55,13 @@ pub struct TcpScript {
     pub hold: bool,
 }
 
+/// a session id no other call of this process has used
+fn fresh_id() -> u64 {
+    static N: std::sync::atomic::AtomicU64 = std::sync::atomic::AtomicU64::new(1);
+    let t = std::time::SystemTime::now().duration_since(std::time::UNIX_EPOCH).map(|d| d.as_nanos() as u64).unwrap_or(0);
+    (t << 16) ^ (N.fetch_add(1, std::sync::atomic::Ordering::Relaxed) << 1) | 1 << 62
+}
+
 fn free_port() -> u16 {
     std::net::TcpListener::bind("127.0.0.1:0").and_then(|l| l.local_addr()).map(|a| a.port()).unwrap_or(0)
 }
@@ -66,7 +73,7 @@ pub fn open_fds() -> usize {
 impl World {
     /// `mode`: the server's mode (the client gets tcp_and_udp when udp is asked for)
     #[allow(clippy::too_many_arguments)]
-    pub fn start(protocol: &str, cipher: &str, server_password: &str, client_password: &str, users: &[(String, String)], mode: &str, client_mode: Option<&str>, ws: bool, link: bool, threads: usize, tls: Option<&str>) -> anyhow::Result<World> {
+    pub fn start(protocol: &str, cipher: &str, server_password: &str, client_password: &str, users: &[(String, String)], mode: &str, client_mode: Option<&str>, ws: bool, link: bool, chop: bool, threads: usize, tls: Option<&str>) -> anyhow::Result<World> {
         // as both `main`s do
         let _ = tokio_rustls::rustls::crypto::aws_lc_rs::default_provider().install_default();
         let rt = tokio::runtime::Builder::new_multi_thread().worker_threads(threads.clamp(2, 16)).enable_all().build()?;
@@ -98,12 +105,37 @@ impl World {
             let links = links.clone();
             let l = rt.block_on(TcpListener::bind(("127.0.0.1", link_port)))?;
             rt.spawn(async move {
-                while let Ok((mut a, _)) = l.accept().await {
+                while let Ok((a, _)) = l.accept().await {
                     let h = tokio::spawn(async move {
-                        if let Ok(mut b) = TcpStream::connect(("127.0.0.1", server_port)).await {
+                        if let Ok(b) = TcpStream::connect(("127.0.0.1", server_port)).await {
                             let _ = a.set_nodelay(true);
                             let _ = b.set_nodelay(true);
-                            let _ = tokio::io::copy_bidirectional(&mut a, &mut b).await;
+                            let (mut a, mut b) = (a, b);
+                            if chop {
+                                // forward in small pieces of changing size with tiny pauses: the peer's reads end anywhere inside frames
+                                async fn pump(mut r: tokio::net::tcp::OwnedReadHalf, mut w: tokio::net::tcp::OwnedWriteHalf, mut x: u64) {
+                                    let mut buf = vec![0u8; 4096];
+                                    loop {
+                                        x = x.wrapping_mul(6364136223846793005).wrapping_add(1442695040888963407);
+                                        let n = 1 + (x >> 33) as usize % [7usize, 61, 300, 1400, 4096][(x >> 20) as usize % 5];
+                                        match r.read(&mut buf[..n]).await {
+                                            Ok(0) | Err(_) => break,
+                                            Ok(k) => {
+                                                if w.write_all(&buf[..k]).await.is_err() {
+                                                    break;
+                                                }
+                                                tokio::time::sleep(Duration::from_micros(150)).await;
+                                            }
+                                        }
+                                    }
+                                    let _ = w.shutdown().await;
+                                }
+                                let (ar, aw) = a.into_split();
+                                let (br, bw) = b.into_split();
+                                let _ = tokio::join!(pump(ar, bw, 1), pump(br, aw, 2));
+                            } else {
+                                let _ = tokio::io::copy_bidirectional(&mut a, &mut b).await;
+                            }
                         }
                     });
                     links.lock().unwrap().push(h.abort_handle());
@@ -269,7 +301,7 @@ impl World {
             let mut answered = 0;
             for sidx in 0..sessions {
                 let Ok(sock) = UdpSocket::bind("127.0.0.1:0").await else { return "no-loopback".to_owned() };
-                let csid = 0x1000 + sidx as u64 * 7919 + (sp as u64) << 16;
+                let csid = fresh_id();
                 let mut mine = None;
                 for k in 0..per {
                     let Ok(w) = c.encode(csid, k as u64 + 1, Address::Socket(format!("127.0.0.1:{}", eport).parse().unwrap()), format!("probe-{}-{}", sidx, k).as_bytes()) else { return "encode-failed".to_owned() };
@@ -300,6 +332,100 @@ impl World {
             q.sort();
             q.dedup();
             if p.len() == pairs.len() && q.len() == ssids.len() { "distinct".to_owned() } else { format!("reused:pairs{}of{},sessions{}of{}", p.len(), pairs.len(), q.len(), ssids.len()) }
+        })
+    }
+
+    /// two registered users whose udp sessions carry the same client session id, one after the other, against the
+    /// real server: each one's reply must open under that user's own key (`a=ok b=ok`)
+    pub fn udp_owner(&self) -> String {
+        if self.protocol != "shadowsocks" || !self.udp || self.scfg.user.len() < 2 {
+            return "n/a".to_owned();
+        }
+        let sp = self.server_port;
+        let psk = self.scfg.password.clone();
+        let mk = |i: usize| crate::ssudp::RawClient::new(&self.cipher, &format!("{}:{}", psk, self.scfg.user[i].password));
+        let (Ok(a), Ok(b)) = (mk(0), mk(1)) else { return "n/a".to_owned() };
+        self.rt.block_on(async move {
+            let Ok(echo) = UdpSocket::bind("127.0.0.1:0").await else { return "no-loopback".to_owned() };
+            let eport = echo.local_addr().unwrap().port();
+            tokio::spawn(async move {
+                let mut buf = vec![0u8; 4096];
+                while let Ok(Ok((l, from))) = tokio::time::timeout(Duration::from_secs(4), echo.recv_from(&mut buf)).await {
+                    let _ = echo.send_to(&buf[..l], from).await;
+                }
+            });
+            let csid = fresh_id();
+            let target = || Address::Socket(format!("127.0.0.1:{}", eport).parse().unwrap());
+            let mut out = vec![];
+            // (one socket: the association answers to the address it was opened from)
+            let Ok(sock) = UdpSocket::bind("127.0.0.1:0").await else { return "no-loopback".to_owned() };
+            for (name, codec, other, pid) in [("a", &a, &b, 1u64), ("b", &b, &a, 2), ("a", &a, &b, 3)] {
+                let Ok(w) = codec.encode(csid, pid, target(), format!("from-{}", name).as_bytes()) else { return "encode-failed".to_owned() };
+                let _ = sock.send_to(&w, ("127.0.0.1", sp)).await;
+                let mut buf = vec![0u8; 4096];
+                let verdict = match tokio::time::timeout(Duration::from_secs(3), sock.recv_from(&mut buf)).await {
+                    Ok(Ok((l, _))) => match (codec.decode(&buf[..l]), other.decode(&buf[..l])) {
+                        (Some((_, _, _, d)), None) if d == format!("from-{}", name).as_bytes() => "ok",
+                        (Some(_), None) => "altered",
+                        (None, Some(_)) => "sealed-for-the-other-user",
+                        (Some(_), Some(_)) => "opens-for-both",
+                        (None, None) => "opens-for-nobody",
+                    },
+                    _ => "no-reply",
+                };
+                out.push(format!("{}={}", name, verdict));
+            }
+            out.join(" ")
+        })
+    }
+
+    /// an established udp session, one of its datagrams replayed from elsewhere, then the session goes on: every
+    /// later datagram of the session is still answered (`ok`)
+    pub fn udp_replay_live(&self) -> String {
+        // (the legacy ciphers carry no packet ids: a repeated datagram is a new datagram)
+        if self.protocol != "shadowsocks" || !self.udp || !self.cipher.starts_with("2022") {
+            return "n/a".to_owned();
+        }
+        let sp = self.server_port;
+        let pw = if self.scfg.user.is_empty() { self.client_password.clone() } else { format!("{}:{}", self.scfg.password, self.scfg.user[0].password) };
+        let Ok(c) = crate::ssudp::RawClient::new(&self.cipher, &pw) else { return "n/a".to_owned() };
+        self.rt.block_on(async move {
+            let Ok(echo) = UdpSocket::bind("127.0.0.1:0").await else { return "no-loopback".to_owned() };
+            let eport = echo.local_addr().unwrap().port();
+            tokio::spawn(async move {
+                let mut buf = vec![0u8; 4096];
+                while let Ok(Ok((l, from))) = tokio::time::timeout(Duration::from_secs(5), echo.recv_from(&mut buf)).await {
+                    let _ = echo.send_to(&buf[..l], from).await;
+                }
+            });
+            let (Ok(sock), Ok(elsewhere)) = (UdpSocket::bind("127.0.0.1:0").await, UdpSocket::bind("127.0.0.1:0").await) else { return "no-loopback".to_owned() };
+            let csid = fresh_id();
+            let target = || Address::Socket(format!("127.0.0.1:{}", eport).parse().unwrap());
+            let mut buf = vec![0u8; 4096];
+            let mut lost = vec![];
+            let mut first = vec![];
+            for pid in 1..=5u64 {
+                let Ok(w) = c.encode(csid, pid, target(), format!("d{}", pid).as_bytes()) else { return "encode-failed".to_owned() };
+                if pid == 1 {
+                    first = w.clone();
+                }
+                let _ = sock.send_to(&w, ("127.0.0.1", sp)).await;
+                match tokio::time::timeout(Duration::from_millis(1500), sock.recv_from(&mut buf)).await {
+                    Ok(Ok((l, _))) if c.decode(&buf[..l]).map(|x| x.3 == format!("d{}", pid).as_bytes()).unwrap_or(false) => (),
+                    _ => lost.push(pid),
+                }
+                if pid == 2 {
+                    // the first datagram again, twice, from another address and from the own one
+                    let _ = elsewhere.send_to(&first, ("127.0.0.1", sp)).await;
+                    let _ = sock.send_to(&first, ("127.0.0.1", sp)).await;
+                    tokio::time::sleep(Duration::from_millis(60)).await;
+                    // (a replay must not be answered)
+                    if let Ok(Ok(_)) = tokio::time::timeout(Duration::from_millis(120), sock.recv_from(&mut buf)).await {
+                        return "replay-answered".to_owned();
+                    }
+                }
+            }
+            if lost.is_empty() { "ok".to_owned() } else { format!("lost:{:?}", lost).replace(' ', "") }
         })
     }
 
@@ -411,6 +537,39 @@ impl World {
                             drop(c);
                         });
                     }
+                    "done".to_owned()
+                }
+                // a quic handshake that never completes (the server's answers never reach the peer, which keeps
+                // retransmitting its Initial), and junk datagrams at the quic port
+                "quic-stall" => {
+                    let Ok(proxy) = UdpSocket::bind("127.0.0.1:0").await else { return "no-loopback".to_owned() };
+                    let paddr = proxy.local_addr().unwrap();
+                    tokio::spawn(async move {
+                        let mut buf = vec![0u8; 2048];
+                        let Ok(out) = UdpSocket::bind("127.0.0.1:0").await else { return };
+                        // one way only: towards the server
+                        while let Ok(Ok((l, _))) = tokio::time::timeout(Duration::from_secs(4), proxy.recv_from(&mut buf)).await {
+                            let _ = out.send_to(&buf[..l], ("127.0.0.1", sp)).await;
+                        }
+                    });
+                    let roots = tokio_rustls::rustls::RootCertStore::empty();
+                    let mut tls = tokio_rustls::rustls::ClientConfig::builder().with_root_certificates(roots).with_no_client_auth();
+                    tls.alpn_protocols = vec![b"http/1.1".to_vec()];
+                    let Ok(qc) = quinn::crypto::rustls::QuicClientConfig::try_from(tls) else { return "n/a".to_owned() };
+                    let Ok(mut ep) = quinn::Endpoint::client("0.0.0.0:0".parse().unwrap()) else { return "n/a".to_owned() };
+                    ep.set_default_client_config(quinn::ClientConfig::new(Arc::new(qc)));
+                    let Ok(connecting) = ep.connect(paddr, "localhost") else { return "n/a".to_owned() };
+                    tokio::spawn(async move {
+                        let _ = tokio::time::timeout(Duration::from_secs(4), connecting).await;
+                        drop(ep);
+                    });
+                    tokio::time::sleep(Duration::from_millis(150)).await;
+                    "done".to_owned()
+                }
+                "quic-junk" => {
+                    let Ok(u) = UdpSocket::bind("127.0.0.1:0").await else { return "no-loopback".to_owned() };
+                    let _ = u.send_to(&junk, ("127.0.0.1", sp)).await;
+                    let _ = u.send_to(&[0xc0, 0, 0, 0, 1, 8, 1, 2, 3, 4, 5, 6, 7, 8, 0], ("127.0.0.1", sp)).await;
                     "done".to_owned()
                 }
                 // requests cut off inside the 4-byte SOCKS5-UDP header (RSV RSV FRAG ATYP): 1, 2, 3 and 4 bytes
